@@ -111,17 +111,37 @@ theorem uniqueLoop_mem (rs : List Route) (l : Lid) (h : uniqueLoop none rs = som
 @[simp] theorem bindSsrc_byRid (r : Reg) (s : Nat) (l : Lid) : (bindSsrc r s l).byRid = r.byRid := rfl
 @[simp] theorem bindSsrc_routes (r : Reg) (s : Nat) (l : Lid) : (bindSsrc r s l).routes = r.routes := rfl
 
+@[simp] theorem bindFromPacket_closed (r : Reg) (s : Nat) (l : Lid) : (bindFromPacket r s l).closed = r.closed := by
+  unfold bindFromPacket; split <;> rfl
+@[simp] theorem bindFromPacket_byMid (r : Reg) (s : Nat) (l : Lid) : (bindFromPacket r s l).byMid = r.byMid := by
+  unfold bindFromPacket; split <;> rfl
+@[simp] theorem bindFromPacket_byRid (r : Reg) (s : Nat) (l : Lid) : (bindFromPacket r s l).byRid = r.byRid := by
+  unfold bindFromPacket; split <;> rfl
+@[simp] theorem bindFromPacket_routes (r : Reg) (s : Nat) (l : Lid) : (bindFromPacket r s l).routes = r.routes := by
+  unfold bindFromPacket; split <;> rfl
+
+theorem bindFromPacket_mem (r : Reg) (s : Nat) (l : Lid) (e : Nat × Lid)
+    (h : e ∈ (bindFromPacket r s l).bySsrc) : e = (s, l) ∨ e ∈ r.bySsrc := by
+  unfold bindFromPacket at h
+  split at h
+  · rcases mem_insert _ _ _ _ h with he | he
+    · exact Or.inl he
+    · exact Or.inr (mem_retainOpen _ _ _ he)
+  · rcases mem_insert _ _ _ _ h with he | he
+    · exact Or.inl he
+    · exact Or.inr he
+
 @[simp] theorem afterSelect_closed (r : Reg) (s : Nat) (l : Lid) (b : Bool) : (afterSelect r s l b).closed = r.closed := by
-  cases b <;> rfl
+  cases b <;> simp [afterSelect]
 
 theorem afterSelect_mem (r : Reg) (s : Nat) (l : Lid) (b : Bool) (e : Nat × Lid)
     (h : e ∈ (afterSelect r s l b).bySsrc) : e ∈ r.bySsrc ∨ (b = true ∧ e = (s, l)) := by
   cases b
   · exact Or.inl h
-  · simp only [afterSelect, if_true, bindSsrc] at h
-    rcases mem_insert _ _ _ _ h with he | he
+  · simp only [afterSelect, if_true] at h
+    rcases bindFromPacket_mem _ _ _ _ h with he | he
     · exact Or.inr ⟨rfl, he⟩
-    · exact Or.inl (mem_retainOpen _ _ _ he)
+    · exact Or.inl he
 
 theorem deliver_mem (r1 : Reg) (s : Nat) (l : Lid) (v : Via) (e : Nat × Lid)
     (h : e ∈ (deliver r1 s l v).1.bySsrc) : e ∈ r1.bySsrc := by
